@@ -46,6 +46,10 @@ class RTTransport(asyncio.DatagramTransport):
             self.log.append((time.monotonic(), "transport-closed", b"", None))
             self.loop.call_soon(self.protocol.connection_lost, None)
 
+    def abort(self):
+        self.log.append((time.monotonic(), "transport-aborted", b"", None))
+        self.close()
+
     def is_closing(self):
         return self.closed
 
@@ -181,6 +185,8 @@ def sync_close_scenario(variant, n_services, distinct_addrs):
             late = [e for e in log if e[0] > t_ret and e[1] in ("sent", "sendto-on-closed")]
             if late:
                 bad.append(("C17:send-after-close", "close() from %s: datagram handed to a transport %.0f ms after close returned" % (variant, (late[0][0] - t_ret) * 1000)))
+            if any(e[1] == "transport-aborted" for e in log):
+                bad.append(("C17:transport-aborted", "close() from %s aborted the transports instead of closing them" % variant))
             if not zc.done or t_closed is None:
                 bad.append(("C17:not-shut-down", "close() from %s: done=%s transports closed=%s" % (variant, zc.done, t_closed is not None)))
         finally:
@@ -227,10 +233,13 @@ def threaded_browser_scenario(n_records, callback_ms, closer):
         for i in range(n_records):
             out.add_answer_at_time(DNSPointer(TB, const._TYPE_PTR, const._CLASS_IN, 4500, "x%d.%s" % (i, TB)), 0)
         zc.engine.protocols[0].datagram_received(out.packets()[0], ("10.0.0.9", 5353))
-        if closer == "async_close":
-            await AsyncZeroconf(zc=zc).async_close()
-        else:
-            await loop.run_in_executor(None, zc.close)
+        try:
+            if closer == "async_close":
+                await AsyncZeroconf(zc=zc).async_close()
+            else:
+                await loop.run_in_executor(None, zc.close)
+        except Exception as ex:  # noqa: BLE001  -- an observation, not a harness error
+            errors.append("close raised " + type(ex).__name__)
         t_ret = time.monotonic()
         await asyncio.sleep(callback_ms * n_records / 1000.0 + 0.1)
         return t_ret
